@@ -129,6 +129,12 @@ def main():
         print("MC_Hist[%s] Dev=%-14s -> %s (%d states)" % (kt, dev, "holds" if ok else "violated", r["stats"]["states"]))
         if ok != expect:
             failures += 1
+    for dev, expect in [("none", True), ("BuilderUnchecked", False)]:
+        r = mc.model_build("k256", 3, 0, 1, wd, dev=dev, emit=False)
+        ok = r["stats"]["ok"]
+        print("MC_Build Dev=%-20s -> %s (%d states)" % (dev, "holds" if ok else "violated", r["stats"]["states"]))
+        if ok != expect:
+            failures += 1
     r = mc.model_gen("secp", 2, mc.ALL_CLASSES, 0, 1, wd, emit=False)
     print("MC_Gen                         -> %s (%d states)" % ("holds" if r["stats"]["ok"] else "violated", r["stats"]["states"]))
     failures += 0 if r["stats"]["ok"] else 1
